@@ -1,4 +1,5 @@
 import F3.Proofs.InstanceDecision
+import F3.Proofs.InstanceFrame2
 /-!
 # Layer B: the executable instance only emits under the guards of the abstract protocol
 
@@ -278,5 +279,95 @@ theorem setRound_ok {W : Votes} {s : State} (h : RoundsOK W s.tbl s.rounds) (r :
   rcases setAssoc_mem _ _ _ _ he with rfl | he
   · exact hrs
   · exact h e he
+
+
+/-! ### the state invariant and the guards -/
+
+/-- PREPARE of round `r'` lies strictly before the progress point `pt` -/
+def prepBefore (r' : Nat) (pt : Pt) : Prop := r' < pt.1 ∨ (r' = pt.1 ∧ 3 < pt.2)
+
+theorem prepBefore_mono {r' : Nat} {a b : Pt} (h : prepBefore r' a) (hle : ptLe a b) : prepBefore r' b := by
+  rcases hle with rfl | ⟨hlt, _⟩
+  · exact h
+  · unfold prepBefore at *
+    rcases h with h | ⟨h1, h2⟩ <;> rcases hlt with h' | ⟨h'1, h'2⟩
+    · left; omega
+    · left; omega
+    · left; omega
+    · right; omega
+
+/-- evidence for a candidate: a non-empty prefix of the input, or a value with a strong PREPARE quorum
+in a round whose PREPARE lies before the current point -/
+def CandOK (W : Votes) (s : State) (c : Chain) : Prop :=
+  c ≠ [] ∧ (c <+: s.input ∨ ∃ r', QL W s.tbl r' .prepare c ∧ prepBefore r' s.pt)
+
+structure GInv (W : Votes) (me : Pid) (s : State) : Prop where
+  rounds : RoundsOK W s.tbl s.rounds
+  decision : TallyWF (fun x c => W x 0 .decide c) s.tbl s.decision
+  cands : ∀ c ∈ s.candidates, CandOK W s c
+  inputNe : s.input ≠ []
+  ownPrep : s.phase = .prepare → W me s.round .prepare s.proposal
+
+/-- the guard of the abstract protocol (`F3.Granite.Guard`) at the list level -/
+def GuardL (W : Votes) (t : Table) (me : Pid) (input : Chain) (r : Nat) (ph : Phase) (v : Chain) : Prop :=
+  match ph with
+  | .prepare => v ≠ [] ∧ (r = 0 ∨ JL W t r v) ∧ (v <+: input ∨ ∃ r', r' < r ∧ QL W t r' .prepare v)
+  | .commit => (v = [] → ∃ y, W me r .prepare y ∧ ∃ s' z, z ≠ y ∧ W s' r .prepare z ∧ (r = 0 ∨ JL W t r z)) ∧
+               (v ≠ [] → QL W t r .prepare v)
+  | .decide => r = 0 → (v ≠ [] ∧ ∃ r', QL W t r' .commit v)
+  | _ => True
+
+/-- all broadcasts of an effect list are the participant's own votes in `W` -/
+def OwnIn (W : Votes) (me : Pid) (es : List Eff) : Prop :=
+  ∀ r ph v tk j, Eff.broadcast r ph v tk j ∈ es → W me r ph v
+
+/-- all broadcasts of an effect list satisfy their guard -/
+def Guarded (W : Votes) (t : Table) (me : Pid) (input : Chain) (es : List Eff) : Prop :=
+  ∀ r ph v tk j, Eff.broadcast r ph v tk j ∈ es → GuardL W t me input r ph v
+
+theorem OwnIn_append {W : Votes} {me : Pid} {a b : List Eff} (h : OwnIn W me (a ++ b)) : OwnIn W me a ∧ OwnIn W me b :=
+  ⟨fun r ph v tk j hm => h r ph v tk j (List.mem_append_left _ hm),
+   fun r ph v tk j hm => h r ph v tk j (List.mem_append_right _ hm)⟩
+
+theorem Guarded_append {W : Votes} {t : Table} {me : Pid} {input : Chain} {a b : List Eff}
+    (ha : Guarded W t me input a) (hb : Guarded W t me input b) : Guarded W t me input (a ++ b) := by
+  intro r ph v tk j hm
+  rcases List.mem_append.1 hm with hm | hm
+  · exact ha r ph v tk j hm
+  · exact hb r ph v tk j hm
+
+theorem Guarded_nil {W : Votes} {t : Table} {me : Pid} {input : Chain} : Guarded W t me input [] := by
+  intro r ph v tk j hm; simp at hm
+
+/-- what a function of the model guarantees: unless it reports a failure, and provided its broadcasts are the
+participant's own votes, it keeps the invariant and every broadcast is guarded -/
+def GOK (W : Votes) (me : Pid) (s : State) (r : R) : Prop :=
+  hasFailure r.2 = true ∨ (OwnIn W me r.2 → (GInv W me r.1 ∧ Guarded W s.tbl me s.input r.2))
+
+theorem GOK.fail {W : Votes} {me : Pid} {s s' : State} {es : List Eff} (h : hasFailure es = true) : GOK W me s (s', es) :=
+  Or.inl h
+
+theorem GOK.nil {W : Votes} {me : Pid} {s : State} (h : GInv W me s) : GOK W me s (s, []) :=
+  Or.inr fun _ => ⟨h, Guarded_nil⟩
+
+theorem andThen_gok {W : Votes} {me : Pid} {s : State} {r : R} {f : State → R} (h1 : GOK W me s r)
+    (htbl : r.1.tbl = s.tbl) (hinp : r.1.input = s.input)
+    (h2 : GInv W me r.1 → GOK W me r.1 (f r.1)) : GOK W me s (andThen r f) := by
+  unfold andThen
+  split
+  · exact Or.inl (by assumption)
+  · rename_i hnf
+    rcases h1 with hf | h1
+    · exact absurd hf hnf
+    · by_cases hf2 : hasFailure (f r.1).2 = true
+      · exact Or.inl (by simp [hf2])
+      · refine Or.inr fun hown => ?_
+        obtain ⟨ho1, ho2⟩ := OwnIn_append hown
+        obtain ⟨hi1, hg1⟩ := h1 ho1
+        rcases h2 hi1 with hf | h2'
+        · exact absurd hf hf2
+        · obtain ⟨hi2, hg2⟩ := h2' ho2
+          rw [htbl, hinp] at hg2
+          exact ⟨hi2, Guarded_append hg1 hg2⟩
 
 end F3.Instance
